@@ -155,7 +155,7 @@ func ItemCollectionDeduplication(recCols ...*ItemCollection) ItemCollection {
 		toRemove := make([]int, 0)
 		for i, cur := range *recCol {
 			save := true
-			if cur == nil {
+			if IsNil(cur) {
 				continue
 			}
 			var testIt IRI
